@@ -3,6 +3,7 @@
 
 use crate::msgs::{self, MsgDesc, View};
 use futures::StreamExt;
+use pallas_network2::behavior::responder::connection::{ConnectionResponder, ConnectionResponderConfig};
 use pallas_network2::behavior::responder::{ResponderBehavior, ResponderCommand, ResponderEvent};
 use pallas_network2::behavior::AnyMessage;
 use pallas_network2::protocol as proto;
@@ -64,6 +65,183 @@ const CMDS: [&str; 15] = [
     "idle",
 ];
 
+pub struct RDriver {
+    pub beh: ResponderBehavior,
+    pub pending: BTreeMap<u64, Vec<AnyMessage>>,
+    pub views: BTreeMap<u64, View>,
+}
+
+impl RDriver {
+    pub fn new() -> RDriver {
+        // max_error_count 1 / max_connections_per_ip 2 are the constants of TraceResponder.cfg
+        RDriver {
+            beh: ResponderBehavior {
+                connection: ConnectionResponder::new(ConnectionResponderConfig {
+                    max_error_count: 1,
+                    max_connections_per_ip: 2,
+                }),
+                ..Default::default()
+            },
+            pending: BTreeMap::new(),
+            views: BTreeMap::new(),
+        }
+    }
+
+    pub fn known(&self) -> Vec<u64> {
+        let mut v: Vec<u64> = self.beh.peers.keys().map(rnum).collect();
+        v.sort();
+        v
+    }
+
+    /// one step on the real behaviour; false if it panicked
+    pub fn step(&mut self, a: &str, p: u64, m: &MsgDesc, log: &mut Ndjson) -> bool {
+        let versions: Vec<u64> = if m.peers.is_empty() || m.proto != "handshake" { vec![13, 15] } else { m.peers.clone() };
+        let pid = rpid(p);
+        let msg: Option<AnyMessage> = match a {
+            "sent" => self
+                .pending
+                .get_mut(&p)
+                .and_then(|v| v.iter().position(|x| msgs::describe(x).same_kind(m)).map(|i| v.remove(i)))
+                .or_else(|| msgs::build(m, &versions)),
+            "recv" => msgs::build(m, &versions),
+            _ => None,
+        };
+        if (a == "sent" || a == "recv") && msg.is_none() {
+            log.ev(json!({"ev": "skip", "a": a, "p": p, "m": m.json()}));
+            return true;
+        }
+        let a2 = a.to_string();
+        let b = &mut self.beh;
+        let pt = proto::Point::new(3, vec![3; 32]);
+        let tip = proto::chainsync::Tip(proto::Point::new(9, vec![9; 32]), 9);
+        let any = proto::AnyCbor::from_raw_bytes(vec![0x80]);
+        let res = pv_core::catch(move || {
+            match a2.as_str() {
+                "connected" => b.handle_io(InterfaceEvent::Connected(pid)),
+                "disconnected" => b.handle_io(InterfaceEvent::Disconnected(pid)),
+                "error" => b.handle_io(InterfaceEvent::Error(pid, InterfaceError::Other("io".into()))),
+                "recv" => b.handle_io(InterfaceEvent::Recv(pid, vec![msg.unwrap()])),
+                "sent" => b.handle_io(InterfaceEvent::Sent(pid, msg.unwrap())),
+                "idle" => b.handle_io(InterfaceEvent::Idle),
+                "hk" => b.execute(ResponderCommand::Housekeeping),
+                "provide-intersection" => b.execute(ResponderCommand::ProvideIntersection(pid, pt, tip)),
+                "provide-header" => b.execute(ResponderCommand::ProvideHeader(
+                    pid,
+                    proto::chainsync::HeaderContent {
+                        variant: 1,
+                        byron_prefix: None,
+                        cbor: vec![0x80],
+                    },
+                    tip,
+                )),
+                "provide-rollback" => b.execute(ResponderCommand::ProvideRollback(pid, pt, tip)),
+                "provide-blocks" => b.execute(ResponderCommand::ProvideBlocks(pid, vec![vec![0x80], vec![0x81, 0]])),
+                "provide-peers" => b.execute(ResponderCommand::ProvidePeers(pid, vec![])),
+                "provide-eb-announcement" => b.execute(ResponderCommand::ProvideEbAnnouncement(pid, any)),
+                "provide-eb-offer" => b.execute(ResponderCommand::ProvideEbOffer(pid, pt, 10)),
+                "provide-eb-txs-offer" => b.execute(ResponderCommand::ProvideEbTxsOffer(pid, pt)),
+                "provide-votes" => b.execute(ResponderCommand::ProvideVotes(pid, vec![any])),
+                "provide-eb" => b.execute(ResponderCommand::ProvideEb(pid, any)),
+                "provide-eb-txs" => b.execute(ResponderCommand::ProvideEbTxs(
+                    pid,
+                    pt,
+                    proto::leiosfetch::Bitmaps::all(2),
+                    vec![any],
+                )),
+                "ban" => b.execute(ResponderCommand::BanPeer(pid)),
+                "disconnect-peer" => b.execute(ResponderCommand::DisconnectPeer(pid)),
+                other => pv_core::die(&format!("unknown responder step {other}")),
+            }
+            drain(b)
+        });
+        let outs = match res {
+            Ok(o) => o,
+            Err(msg) => {
+                log.ev(json!({"ev": "panic", "a": a, "p": p, "m": m.json(), "msg": msg, "pre_conn": "-", "pre_hs": "-"}));
+                return false;
+            }
+        };
+        match a {
+            "connected" => {
+                self.views.insert(p, View::new());
+                self.pending.insert(p, vec![]);
+            }
+            "disconnected" => {
+                self.views.remove(&p);
+                self.pending.remove(&p);
+            }
+            "recv" => {
+                if let Some(v) = self.views.get_mut(&p) {
+                    v.advance(m, 'c');
+                }
+            }
+            _ => {}
+        }
+        let mut out = vec![];
+        for o in outs {
+            match o {
+                BehaviorOutput::InterfaceCommand(InterfaceCommand::Connect(q)) => {
+                    out.push(json!({"t": "connect", "p": rnum(&q), "m": MsgDesc::none().json(), "k": ""}))
+                }
+                BehaviorOutput::InterfaceCommand(InterfaceCommand::Disconnect(q)) => {
+                    out.push(json!({"t": "disconnect", "p": rnum(&q), "m": MsgDesc::none().json(), "k": ""}))
+                }
+                BehaviorOutput::InterfaceCommand(InterfaceCommand::Send(q, mm)) => {
+                    let d = msgs::describe(&mm);
+                    let n = rnum(&q);
+                    if let Some(v) = self.views.get_mut(&n) {
+                        v.advance(&d, 's');
+                    }
+                    self.pending.entry(n).or_default().push(mm);
+                    out.push(json!({"t": "send", "p": n, "m": d.json(), "k": ""}));
+                }
+                BehaviorOutput::ExternalEvent(e) => {
+                    let (k, n) = event_kind(&e);
+                    out.push(json!({"t": "event", "p": n, "m": MsgDesc::none().json(), "k": k}));
+                }
+            }
+        }
+        let tracked = self.known();
+        let peers: Vec<_> = tracked
+            .iter()
+            .map(|q| {
+                let s = self.beh.peers[&rpid(*q)].verif_snapshot();
+                json!({"p": q, "conn": s.connection, "viol": s.violation, "errs": s.error_count, "hs": s.handshake,
+                       "ver": s.version, "ka": s.keepalive, "ps": s.peersharing, "bf": s.blockfetch,
+                       "cs": s.chainsync, "tx": s.txsubmission, "ln": s.leiosnotify, "lf": s.leiosfetch})
+            })
+            .collect();
+        let evname = if a == "idle" { "hk" } else { a };
+        log.ev(json!({"ev": evname, "p": p, "m": m.json(), "out": out, "tracked": tracked, "peers": peers}));
+        true
+    }
+}
+
+fn log_reset(log: &mut Ndjson, sid: &str) {
+    log.ev(json!({"ev": "reset", "sid": sid, "cfg": {"responder": true, "max_err": 1, "max_per_ip": 2}}));
+}
+
+/// `resp-run`: replay TLC schedules of MCResponder ({"id":..,"sched":[{"ev","p","m"}..]} per line).
+pub fn run_schedules(args: &pv_core::Args) {
+    let rows = pv_core::read_ndjson(args.get("in"));
+    let mut log = Ndjson::create(args.get("out"));
+    let mut panics = 0;
+    for (i, row) in rows.iter().enumerate() {
+        log_reset(&mut log, row["id"].as_str().unwrap_or(&format!("r{i}")));
+        let mut d = RDriver::new();
+        for st in pv_core::jarr(&row["sched"]) {
+            let a = st["ev"].as_str().unwrap_or("?");
+            let m = if st["m"].is_object() { MsgDesc::from_json(&st["m"]) } else { MsgDesc::none() };
+            if !d.step(a, st["p"].as_u64().unwrap_or(0), &m, &mut log) {
+                panics += 1;
+                break;
+            }
+        }
+    }
+    let lines = log.finish();
+    println!("{}", json!({"events": lines, "schedules": rows.len(), "panics": panics}));
+}
+
 pub fn random_runs(args: &pv_core::Args) {
     let seed = args.seed();
     let runs = args.num("runs", 5);
@@ -71,45 +249,47 @@ pub fn random_runs(args: &pv_core::Args) {
     let npeers = args.num("peers", 6);
     let mut log = Ndjson::create(args.get("out"));
     let mut stats = BTreeMap::<String, u64>::new();
-    let versions = [13u64, 15];
     for run in 0..runs {
         let mut rng = Rng::new(seed.wrapping_mul(999_983).wrapping_add(run * 104_729 + 17));
-        log.ev(json!({"ev": "reset", "sid": format!("resp-{seed}-{run}"), "cfg": {"responder": true}}));
-        let mut beh = ResponderBehavior::default();
-        let mut pending: BTreeMap<u64, Vec<AnyMessage>> = BTreeMap::new();
-        let mut views: BTreeMap<u64, View> = BTreeMap::new();
+        log_reset(&mut log, &format!("resp-{seed}-{run}"));
+        let mut d = RDriver::new();
+        // per-run profile: some runs are error storms, some stay on one (peer, protocol) for bursts of messages
+        let err_w = *rng.pick(&[5u64, 5, 25]);
+        let burst = *rng.pick(&[0u64, 30, 60]);
+        let mut last: Option<(u64, String)> = None;
         for _ in 0..events {
             let p = rng.range(1, npeers);
-            let known: Vec<u64> = {
-                let mut v: Vec<u64> = beh.peers.keys().map(rnum).collect();
-                v.sort();
-                v
-            };
-            // choose a step
-            let r = rng.below(100);
-            let (a, p, m): (String, u64, MsgDesc) = if r < 12 {
+            let known = d.known();
+            let r = rng.below(100 + err_w);
+            let (a, p, mut m): (String, u64, MsgDesc) = if let (true, Some((q, pr))) = (rng.below(100) < burst, last.clone()) {
+                // another arbitrary message of the same protocol to the same peer
+                let k = *rng.pick(msgs::kinds(&pr));
+                ("recv".into(), q, MsgDesc::new(&pr, k))
+            } else if r < 12 {
                 ("connected".into(), p, MsgDesc::none())
             } else if r < 17 {
                 ("disconnected".into(), p, MsgDesc::none())
-            } else if r < 22 {
-                ("error".into(), p, MsgDesc::none())
-            } else if r < 45 && !known.is_empty() {
+            } else if r < 17 + err_w {
+                let q = if !known.is_empty() && rng.chance(2, 3) { *rng.pick(&known) } else { p };
+                ("error".into(), q, MsgDesc::none())
+            } else if r < 45 + err_w && !known.is_empty() {
                 // a message a conformant initiator could send now
                 let q = *rng.pick(&known);
-                let opts = views.get(&q).map(|v| v.options('c')).unwrap_or_default();
+                let opts = d.views.get(&q).map(|v| v.options('c')).unwrap_or_default();
                 if opts.is_empty() {
                     ("recv".into(), q, msgs::random_desc(&mut rng, npeers))
                 } else {
                     ("recv".into(), q, rng.pick(&opts).clone())
                 }
-            } else if r < 62 {
-                ("recv".into(), p, msgs::random_desc(&mut rng, npeers))
-            } else if r < 75 {
+            } else if r < 62 + err_w {
+                let q = if !known.is_empty() && rng.chance(2, 3) { *rng.pick(&known) } else { p };
+                ("recv".into(), q, msgs::random_desc(&mut rng, npeers))
+            } else if r < 75 + err_w {
                 // confirm something that was emitted, or something that never was
-                let cand: Vec<u64> = pending.iter().filter(|(_, v)| !v.is_empty()).map(|(k, _)| *k).collect();
+                let cand: Vec<u64> = d.pending.iter().filter(|(_, v)| !v.is_empty()).map(|(k, _)| *k).collect();
                 if !cand.is_empty() && rng.chance(3, 4) {
                     let q = *rng.pick(&cand);
-                    let v = &pending[&q];
+                    let v = &d.pending[&q];
                     ("sent".into(), q, msgs::describe(&v[rng.below(v.len() as u64) as usize]))
                 } else {
                     ("sent".into(), p, msgs::random_desc(&mut rng, npeers))
@@ -118,121 +298,20 @@ pub fn random_runs(args: &pv_core::Args) {
                 let q = if !known.is_empty() && rng.chance(3, 4) { *rng.pick(&known) } else { p };
                 ((*rng.pick(&CMDS)).to_string(), q, MsgDesc::none())
             };
-            let pid = rpid(p);
-            let msg: Option<AnyMessage> = match a.as_str() {
-                "sent" => pending
-                    .get_mut(&p)
-                    .and_then(|v| v.iter().position(|x| msgs::describe(x).same_kind(&m)).map(|i| v.remove(i)))
-                    .or_else(|| msgs::build(&m, &versions)),
-                "recv" => msgs::build(&m, &versions),
-                _ => None,
-            };
-            let a2 = a.clone();
-            let b = &mut beh;
-            let pt = proto::Point::new(3, vec![3; 32]);
-            let tip = proto::chainsync::Tip(proto::Point::new(9, vec![9; 32]), 9);
-            let any = proto::AnyCbor::from_raw_bytes(vec![0x80]);
-            let res = pv_core::catch(move || {
-                match a2.as_str() {
-                    "connected" => b.handle_io(InterfaceEvent::Connected(pid)),
-                    "disconnected" => b.handle_io(InterfaceEvent::Disconnected(pid)),
-                    "error" => b.handle_io(InterfaceEvent::Error(pid, InterfaceError::Other("io".into()))),
-                    "recv" => b.handle_io(InterfaceEvent::Recv(pid, vec![msg.unwrap()])),
-                    "sent" => b.handle_io(InterfaceEvent::Sent(pid, msg.unwrap())),
-                    "idle" => b.handle_io(InterfaceEvent::Idle),
-                    "hk" => b.execute(ResponderCommand::Housekeeping),
-                    "provide-intersection" => b.execute(ResponderCommand::ProvideIntersection(pid, pt, tip)),
-                    "provide-header" => b.execute(ResponderCommand::ProvideHeader(
-                        pid,
-                        proto::chainsync::HeaderContent {
-                            variant: 1,
-                            byron_prefix: None,
-                            cbor: vec![0x80],
-                        },
-                        tip,
-                    )),
-                    "provide-rollback" => b.execute(ResponderCommand::ProvideRollback(pid, pt, tip)),
-                    "provide-blocks" => b.execute(ResponderCommand::ProvideBlocks(pid, vec![vec![0x80], vec![0x81, 0]])),
-                    "provide-peers" => b.execute(ResponderCommand::ProvidePeers(pid, vec![])),
-                    "provide-eb-announcement" => b.execute(ResponderCommand::ProvideEbAnnouncement(pid, any)),
-                    "provide-eb-offer" => b.execute(ResponderCommand::ProvideEbOffer(pid, pt, 10)),
-                    "provide-eb-txs-offer" => b.execute(ResponderCommand::ProvideEbTxsOffer(pid, pt)),
-                    "provide-votes" => b.execute(ResponderCommand::ProvideVotes(pid, vec![any])),
-                    "provide-eb" => b.execute(ResponderCommand::ProvideEb(pid, any)),
-                    "provide-eb-txs" => b.execute(ResponderCommand::ProvideEbTxs(
-                        pid,
-                        pt,
-                        proto::leiosfetch::Bitmaps::all(2),
-                        vec![any],
-                    )),
-                    "ban" => b.execute(ResponderCommand::BanPeer(pid)),
-                    "disconnect-peer" => b.execute(ResponderCommand::DisconnectPeer(pid)),
-                    other => pv_core::die(&format!("unknown responder step {other}")),
-                }
-                drain(b)
-            });
+            if m.proto == "handshake" && m.kind == "Propose" {
+                m.peers = rng.pick(&[vec![13u64, 15], vec![13], vec![15], vec![7, 15]]).clone();
+            }
+            if m.proto == "handshake" && m.kind == "Accept" && m.ver == 0 {
+                m.ver = 13;
+            }
+            if a == "recv" {
+                last = Some((p, m.proto.clone()));
+            }
             *stats.entry(a.clone()).or_insert(0) += 1;
-            let outs = match res {
-                Ok(o) => o,
-                Err(msg) => {
-                    log.ev(json!({"ev": "panic", "a": a, "p": p, "m": m.json(), "msg": msg, "pre_conn": "-", "pre_hs": "-"}));
-                    *stats.entry("panic".into()).or_insert(0) += 1;
-                    break;
-                }
-            };
-            match a.as_str() {
-                "connected" => {
-                    views.insert(p, View::new());
-                    pending.insert(p, vec![]);
-                }
-                "disconnected" => {
-                    views.remove(&p);
-                    pending.remove(&p);
-                }
-                "recv" => {
-                    if let Some(v) = views.get_mut(&p) {
-                        v.advance(&m, 'c');
-                    }
-                }
-                _ => {}
+            if !d.step(&a, p, &m, &mut log) {
+                *stats.entry("panic".into()).or_insert(0) += 1;
+                break;
             }
-            let mut out = vec![];
-            for o in outs {
-                match o {
-                    BehaviorOutput::InterfaceCommand(InterfaceCommand::Connect(q)) => {
-                        out.push(json!({"t": "connect", "p": rnum(&q), "m": MsgDesc::none().json(), "k": ""}))
-                    }
-                    BehaviorOutput::InterfaceCommand(InterfaceCommand::Disconnect(q)) => {
-                        out.push(json!({"t": "disconnect", "p": rnum(&q), "m": MsgDesc::none().json(), "k": ""}))
-                    }
-                    BehaviorOutput::InterfaceCommand(InterfaceCommand::Send(q, mm)) => {
-                        let d = msgs::describe(&mm);
-                        let n = rnum(&q);
-                        if let Some(v) = views.get_mut(&n) {
-                            v.advance(&d, 's');
-                        }
-                        pending.entry(n).or_default().push(mm);
-                        out.push(json!({"t": "send", "p": n, "m": d.json(), "k": ""}));
-                    }
-                    BehaviorOutput::ExternalEvent(e) => {
-                        let (k, n) = event_kind(&e);
-                        out.push(json!({"t": "event", "p": n, "m": MsgDesc::none().json(), "k": k}));
-                    }
-                }
-            }
-            let mut tracked: Vec<u64> = beh.peers.keys().map(rnum).collect();
-            tracked.sort();
-            let peers: Vec<_> = tracked
-                .iter()
-                .map(|q| {
-                    let s = beh.peers[&rpid(*q)].verif_snapshot();
-                    json!({"p": q, "conn": s.connection, "viol": s.violation, "errs": s.error_count, "hs": s.handshake,
-                           "ver": s.version, "ka": s.keepalive, "ps": s.peersharing, "bf": s.blockfetch,
-                           "cs": s.chainsync, "tx": s.txsubmission, "ln": s.leiosnotify, "lf": s.leiosfetch})
-                })
-                .collect();
-            let evname = if a == "idle" { "hk" } else { a.as_str() };
-            log.ev(json!({"ev": evname, "p": p, "m": m.json(), "out": out, "tracked": tracked, "peers": peers}));
         }
     }
     let lines = log.finish();
